@@ -69,6 +69,8 @@ def build_component(comp, workdir, extra_defines=()):
         c['require_loop_contracts'] = True
     os.makedirs(workdir, exist_ok=True)
     t0 = time.time()
+    if cfg.get('typename_pass'):
+        cfg['typename_fixes'] = typename_pass(cfg, workdir)
     text, em = cxxemit.lower_component(cfg, contracts)
     post = ''.join('#include "%s"\n' % p for p in cfg['postlude'])
     cfile = os.path.join(workdir, 'lowered.c')
@@ -79,6 +81,42 @@ def build_component(comp, workdir, extra_defines=()):
             q, f, l = em.func_loc[c]
             fh.write('%-60s %s  %s:%s  %s\n' % (c, q, f, l, em.src_hash[c]))
     return cfile, em, cfg, contracts, harnesses, time.time() - t0
+
+
+def typename_pass(cfg, workdir):
+    """clang 14 lacks P0634 (typename optional in C++20): work on a scratch copy of /repo/include in which `typename `
+    is inserted at exactly the positions clang diagnoses; errors left over must be located outside tulz files"""
+    inc = os.path.join(workdir, 'include_p0634')
+    shutil.rmtree(inc, ignore_errors=True)
+    shutil.copytree(os.path.join(REPO, 'include'), inc)
+    cfg['includes'] = [inc] + [i for i in cfg['includes'] if i != os.path.join(REPO, 'include')]
+    fixes = []
+    for _ in range(12):
+        cmd = ['clang++-14', '-std=c++20', '-fsyntax-only'] + sum([['-I', i] for i in cfg['includes']], []) + [cfg['driver']]
+        p = subprocess.run(cmd, stdout=subprocess.PIPE, stderr=subprocess.PIPE, text=True)
+        todo = {}
+        for m in re.finditer(r"^(\S+?):(\d+):(\d+): error: missing 'typename' prior to dependent type name", p.stderr, re.M):
+            todo.setdefault(m.group(1), set()).add((int(m.group(2)), int(m.group(3))))
+        if not todo:
+            rest = re.findall(r'^(\S+?):\d+:\d+: error: (.*)$', p.stderr, re.M)
+            bad = [r for r in rest if r[0].startswith(inc) or r[0].startswith(REPO)]
+            if bad:
+                raise ToolFailure('clang errors inside tulz files after the typename pass: %s' % bad[:3])
+            cfg['tolerated_clang_errors'] = len(rest)
+            cfg['tolerated_error_texts'] = ['%s: %s' % r for r in rest][:10]
+            return fixes
+        for f, poss in todo.items():
+            if not f.startswith(inc):
+                raise ToolFailure('missing typename outside the scratch copy: %s' % f)
+            with open(f) as fh:
+                lines = fh.read().split('\n')
+            for (ln, col) in sorted(poss, reverse=True):
+                l = lines[ln - 1]
+                lines[ln - 1] = l[:col - 1] + 'typename ' + l[col - 1:]
+                fixes.append('%s:%d:%d' % (os.path.relpath(f, inc), ln, col))
+            with open(f, 'w') as fh:
+                fh.write('\n'.join(lines))
+    raise ToolFailure('typename pass did not converge')
 
 
 def run_harness(h, cfile, workdir, cfg, tier='quick'):
